@@ -28,6 +28,15 @@ OPATHS = [b"/aa/bb", b"/aa", b"/", b"/aa/bb/cc"]
 WELL = [b"com.example.Sender1", b"com.example.Sender2"]
 
 
+def _long_path(rng):
+    """object paths have no length limit of their own (only the 1024 bytes of the rule text): 255, 256 and more bytes"""
+    n = rng.choice([254, 255, 256, 257, 300, 512, 700])
+    comps = []
+    while sum(len(c) + 1 for c in comps) < n:
+        comps.append(b"p" * min(rng.randint(1, 60), max(1, n - sum(len(c) + 1 for c in comps) - 1)))
+    return b"/" + b"/".join(comps)
+
+
 def gen_rule_pairs(rng, clients):
     keys = []
     pool = ["type", "sender", "interface", "member", "path", "path_namespace", "destination", "eavesdrop",
@@ -49,9 +58,9 @@ def gen_rule_pairs(rng, clients):
         elif k == "member":
             pairs.append((b"member", rng.choice(MEMBERS)))
         elif k == "path":
-            pairs.append((b"path", rng.choice(PATHS)))
+            pairs.append((b"path", rng.choice(PATHS) if rng.random() > 0.06 else _long_path(rng)))
         elif k == "path_namespace":
-            pairs.append((b"path_namespace", rng.choice(PATHS)))
+            pairs.append((b"path_namespace", rng.choice(PATHS) if rng.random() > 0.06 else _long_path(rng)))
         elif k == "destination":
             pairs.append((b"destination", rng.choice([c.unique for c in clients])))
         elif k == "eavesdrop":
